@@ -126,9 +126,14 @@ func (b *RawBackend) acceptLoop() {
 			continue
 		}
 		b.mu.Lock()
+		if b.closed.Load() { // accepted while Close was tearing down: nobody else would close it
+			b.mu.Unlock()
+			_ = c.Close()
+			continue
+		}
 		b.conns[c] = struct{}{}
-		b.mu.Unlock()
 		b.wg.Add(1)
+		b.mu.Unlock()
 		go b.serveConn(c)
 	}
 }
